@@ -37,10 +37,11 @@ ASSUMPTIONS = [
     "a generate() that consults no draw from the owned source is a harness error, not a pass",
 ]
 COMPONENTS = {
-    "real": ["eolib.packet.sequence_start (generate, from_*_values)", "EoWriter/EoReader/number codec for the wire trip"],
+    "real": ["eolib.packet.sequence_start (generate, from_*_values)", "EoWriter/EoReader/number codec for the wire trip",
+             "generated InitInit / ConnectionPlayer / AccountReply server packets (real generator, documented layout) for a sample of outcomes"],
     "stub_or_harness": ["SimRandom (scripted random source)", "outcome-space enumerator"],
 }
-PROBES = ["init_seq2_at_252", "init_seq2_at_0", "init_single_choice_range", "ping_seq2_at_251", "ping_value_max",
+PROBES = ["components_through_generated_packet", "init_seq2_at_252", "init_seq2_at_0", "init_single_choice_range", "ping_seq2_at_251", "ping_value_max",
           "account_value_239", "init_value_0", "init_value_max"]
 FAULT_KINDS = ["scripted_draw"]
 EXHAUSTIVE = False  # set in coverage_extra when the sweep completed
@@ -61,9 +62,48 @@ def _slice_for(index):
     return "account", 0, INDEX_SPACE
 
 
+_HDR = '<?xml version="1.0" encoding="UTF-8"?>\n'
+
+
+def c12_tree():
+    """The three server packets that carry sequence starts, laid out as the protocol documents them
+    (INIT: two raw bytes; CONNECTION_PLAYER: a short and a char; ACCOUNT_REPLY: a char after the reply code)."""
+    from ..workspace import skeleton_tree
+    t = skeleton_tree()
+    t["net/protocol.xml"] = _HDR + """<protocol>
+    <enum name="PacketFamily" type="byte"><value name="Connection">1</value><value name="Account">2</value><value name="Init">255</value></enum>
+    <enum name="PacketAction" type="byte"><value name="Player">1</value><value name="Reply">2</value><value name="Init">255</value></enum>
+    <enum name="InitReply" type="byte"><value name="Ok">2</value></enum>
+</protocol>
+"""
+    t["net/server/protocol.xml"] = _HDR + """<protocol>
+    <packet family="Init" action="Init">
+        <field name="reply_code" type="InitReply"/>
+        <field name="seq1" type="byte"/>
+        <field name="seq2" type="byte"/>
+        <field name="player_id" type="short"/>
+    </packet>
+    <packet family="Connection" action="Player">
+        <field name="seq1" type="short"/>
+        <field name="seq2" type="char"/>
+    </packet>
+    <packet family="Account" action="Reply">
+        <field name="reply_code" type="short"/>
+        <field name="sequence_start" type="char"/>
+        <field name="ok" type="string"/>
+    </packet>
+</protocol>
+"""
+    return t
+
+
 class _Ctx:
     def __init__(self, env, res, tr):
-        env.skeleton()
+        if not env.cache.get("c12_loaded"):
+            env.load_tree(c12_tree())
+            env.cache["c12_loaded"] = True
+        self.srv = importlib.import_module("eolib.protocol._generated.net.server")
+        self.net = importlib.import_module("eolib.protocol._generated.net")
         self.mod = importlib.import_module("eolib.packet.sequence_start")
         self.W = importlib.import_module("eolib.data.eo_writer").EoWriter
         self.R = importlib.import_module("eolib.data.eo_reader").EoReader
@@ -72,6 +112,39 @@ class _Ctx:
 
     def fail(self, kind, gen, detail):
         self.res.violation = {"kind": kind, "signature": f"C12|{kind}|{gen}", "detail": detail, "step": self.tr.steps}
+
+    def packet_trip(self, gen, comps):
+        """The components travel in the generated server packet: its bytes must be the documented wire format and
+        the peer's generated deserializer must hand the same components back.  Returns them (or None after fail)."""
+        from ..models.codec_model import encode_number
+        self.res.count("probe.components_through_generated_packet")
+        try:
+            if gen == "init":
+                pkt = self.srv.InitInitServerPacket(reply_code=self.net.InitReply(2), seq1=comps[0], seq2=comps[1], player_id=777)
+                want = bytes([2, comps[0], comps[1]]) + encode_number(777, 2)
+            elif gen == "ping":
+                pkt = self.srv.ConnectionPlayerServerPacket(seq1=comps[0], seq2=comps[1])
+                want = encode_number(comps[0], 2) + encode_number(comps[1], 1)
+            else:
+                pkt = self.srv.AccountReplyServerPacket(reply_code=1000, sequence_start=comps[0], ok="OK")
+                want = encode_number(1000, 2) + encode_number(comps[0], 1) + b"OK"
+            w = self.W()
+            pkt.write(w)
+            got = bytes(w.to_bytearray())
+            if got != want:
+                self.fail("wire-trip", gen, f"{type(pkt).__name__} carrying {comps} serialized to {got.hex()}, the documented "
+                                            f"layout gives {want.hex()}")
+                return None
+            back = type(pkt).deserialize(self.R(want))
+            out = ((back.seq1, back.seq2) if gen != "account" else (back.sequence_start,))
+        except Exception as e:  # noqa
+            self.fail("wire-trip", gen, f"{gen} components {comps} through the generated packet: {type(e).__name__}: {e}")
+            return None
+        if tuple(out) != tuple(comps):
+            self.fail("wire-trip", gen, f"{type(pkt).__name__} carrying {comps}: the peer's deserializer read {tuple(out)} "
+                                        f"from {want.hex()}")
+            return None
+        return out
 
     def one(self, gen, script):
         """Run one generate() under `script`; returns the draw log (or None after a violation)."""
@@ -147,6 +220,17 @@ class _Ctx:
         except ValueError as e:
             self.fail("not-transmittable", gen, f"{gen} value {value}: writer refused a component: {e}; draws {log}")
             return None
+        if (sum(comps) + 7 * comps[-1]) % 23 == 0 or value in (0, 1, 239, 240, 252, 253, 1756, 1757) or comps[-1] in (0, 251, 252):
+            out = self.packet_trip(gen, comps)
+            if out is None:
+                return None
+            back2 = (self.mod.InitSequenceStart.from_init_values(*out) if gen == "init" else
+                     self.mod.PingSequenceStart.from_ping_values(*out) if gen == "ping" else
+                     self.mod.AccountReplySequenceStart.from_value(*out))
+            if back2.value != value:
+                self.fail("reconstruction", gen, f"{gen} value {value} components {comps} through the generated packet "
+                                                 f"reconstructed as {back2.value}")
+                return None
         if back.value != value:
             self.fail("reconstruction", gen, f"{gen} value {value} components {comps} reconstructed as {back.value}")
             return None
